@@ -73,7 +73,8 @@ def floors(tier):
                         "S-divides": 500, "S-near-divides": 300, "S-random": 300, "S-exceeds": 100,
                         "S-last-abscissa-rounds-above-L": 5,
                         "npts": 300, "factor": 300, "year-straddle": 2000, "repeated-position": 2000,
-                        "step-1ms": 2000, "step-hours": 500, "fixes-2": 300, "fixes-10": 300},
+                        "step-1ms": 2000, "step-hours": 500, "fixes-2": 300, "fixes-10": 300,
+                        "pre:abs_curv_then_edit": 1000, "pre:speed_and_abs_curv": 500, "pre:plain_features": 500},
             "distinct_nontrivial": 5000}
 
 
@@ -257,6 +258,15 @@ def cases(chunk):
         req = _gen_request(rng, pts, tms)
         c = {"pts": pts, "tms": tms}
         c.update(req)
+        # call history before the resampling: the track may carry features computed on an earlier geometry
+        r = rng.random()
+        if r < 0.12:
+            c["pre"] = "abs_curv_then_edit"
+            c["pre_scale"] = rng.choice([0.5, 2.0, 3.0, 0.1])
+        elif r < 0.20:
+            c["pre"] = "speed_and_abs_curv"
+        elif r < 0.26:
+            c["pre"] = "plain_features"
         yield c
 
 
@@ -478,14 +488,37 @@ def run_case(case, ctx):
     pts, tms, mode, arg = case["pts"], case["tms"], case["mode"], case["arg"]
     if len(pts) < 2 or any(b <= a for a, b in zip(tms, tms[1:])):
         return ood("needs >= 2 fixes with strictly increasing timestamps")
-    track = gen.make_track([tuple(p) for p in pts], tms)
+    pre = case.get("pre")
+    if pre == "abs_curv_then_edit":
+        # features computed on an earlier geometry, then the fixes are moved to their final positions
+        from tracklib.algo.cinematics import computeAbsCurv
+        k = case.get("pre_scale", 2.0)
+        track = gen.make_track([(p[0] * k + 1.0, p[1] * k - 2.0, p[2]) for p in pts], tms)
+        r0 = M.call(computeAbsCurv, track)
+        if M.is_raised(r0):
+            raise M.HarnessError("computeAbsCurv failed while preparing the case: %s" % r0.brief())
+        for i, p in enumerate(pts):
+            track.getObs(i).position.setX(p[0])
+            track.getObs(i).position.setY(p[1])
+            track.getObs(i).position.setZ(p[2])
+    else:
+        track = gen.make_track([tuple(p) for p in pts], tms)
+        if pre == "speed_and_abs_curv":
+            from tracklib.algo.cinematics import computeAbsCurv
+            M.call(computeAbsCurv, track)
+            M.call(track.estimate_speed)
+        elif pre == "plain_features":
+            track.createAnalyticalFeature("a", [float(i) for i in range(len(pts))])
+            track.createAnalyticalFeature("idx2", 7.0)
     src = _read(track)
     if M.is_raised(src):
         raise M.HarnessError("cannot re-read the generated track: %s" % src.brief())
     if src[3] != list(tms):
         raise M.HarnessError("generated timestamps are not what the API returns")
     cls = _classes(case, pts, tms)
-    sig = (tuple(tms), tuple(tuple(p) for p in pts), mode, repr(arg), case.get("entry"))
+    if pre:
+        cls.add("pre:" + pre)
+    sig = (tuple(tms), tuple(tuple(p) for p in pts), mode, repr(arg), case.get("entry"), pre)
     D = tms[-1] - tms[0]
 
     # ---- build the call
